@@ -73,7 +73,7 @@ inline std::atomic<uint32_t> g_delay{0}; // mode F delay intensity (0 = none)
 inline std::function<void(int, void const*, uint64_t)> g_inject; // mode S: called on the backend thread at every hook
 inline thread_local uint32_t tl_stall_us = 0;                      // mode F: sleep this long at FE_TS_TAKEN of the next statement
 inline thread_local Rng* tl_rng = nullptr;
-inline thread_local uint64_t tl_block_retries = 0, tl_block_idle_mark = 0;
+inline thread_local uint64_t tl_block_retries = 0, tl_block_idle_mark = 0, tl_wait_hits = 0, tl_wait_idle_mark = 0;
 inline thread_local bool tl_control_op = false; // mode S: the current operation is a control request (flush, backtrace, removal)
 
 inline void stat_add(std::string const& k, long long n = 1)
@@ -122,9 +122,28 @@ inline void hook(int p, void const* a, uint64_t b)
     }
     return;
   }
+  if (p == qv::FE_FLUSH_WAIT || p == qv::FE_REMOVE_WAIT)
+  {
+    // progress verdict in logical steps for the two blocking control calls: the caller has re-checked its flag > 1000
+    // times while the backend reported "all queues and buffers empty" > 1000 times since the wait began. A flush
+    // request still queued keeps the queues non-empty, and an invalidated logger is freed on the first all-empty
+    // cycle, so in a correct library this cannot happen.
+    if (tl_wait_hits++ == 0) tl_wait_idle_mark = g_idle_cycles.load(std::memory_order_relaxed);
+    else if (tl_wait_hits > 1000 && g_idle_cycles.load(std::memory_order_relaxed) - tl_wait_idle_mark > 1000)
+    {
+      bool const flush = p == qv::FE_FLUSH_WAIT;
+      violation(flush ? "C06" : "C17", flush ? "flush-never-returns-with-idle-backend" : "remove-logger-blocking-never-returns-with-idle-backend",
+                J{}.unum("wait_loop_iterations", tl_wait_hits).unum("backend_idle_cycles_since_wait_began", g_idle_cycles.load() - tl_wait_idle_mark).str("queue", kQueueName).str("family", "mode F"));
+      end_ok();
+      fflush(stdout);
+      _exit(0);
+    }
+    return;
+  }
   if (p == qv::FE_TS_TAKEN)
   {
     tl_block_retries = 0;
+    tl_wait_hits = 0;
     if (tl_stall_us)
     {
       std::this_thread::sleep_for(std::chrono::microseconds(tl_stall_us));
